@@ -364,6 +364,36 @@ impl Zoo {
         Zoo { geo, style: self.style }
     }
 
+    /// draw `self.into_styled(style).translate(d)` (or translate_mut) - the Transform impl of `Styled<T, S>` itself,
+    /// not of the primitive (None for image/text, which are not Styled)
+    pub fn draw_styled_translated<D: DrawTarget<Color = Rgb565>>(&self, d: Point, use_mut: bool, t: &mut D) -> Option<Result<(), D::Error>> {
+        let st = self.style;
+        macro_rules! go {
+            ($p:expr) => {{
+                let s = $p.into_styled(st);
+                if use_mut {
+                    let mut s2 = s;
+                    s2.translate_mut(d);
+                    s2.draw(t)
+                } else {
+                    s.translate(d).draw(t)
+                }
+            }};
+        }
+        Some(match &self.geo {
+            Geo::Rect(p) => go!(*p),
+            Geo::Circle(p) => go!(*p),
+            Geo::Ellipse(p) => go!(*p),
+            Geo::RRect(p) => go!(*p),
+            Geo::Tri(p) => go!(*p),
+            Geo::Line(p) => go!(*p),
+            Geo::Poly(tr, v) => go!(Polyline::new(v).translate(*tr)),
+            Geo::Arc(p) => go!(*p),
+            Geo::Sector(p) => go!(*p),
+            _ => return None,
+        })
+    }
+
     /// a polyline moved by moving its vertices instead of the translate field (None otherwise)
     pub fn moved_vertices(&self, d: Point) -> Option<Zoo> {
         if let Geo::Poly(tr, v) = &self.geo {
